@@ -39,6 +39,9 @@ def check(ck: Checker) -> None:
 
     _r4.load_fallback_broad(ck, "C17.loadonce")
     _r4.storage_prefix_default(ck, "C17.fs")
+    from . import round7 as _r7
+
+    _r7.ensure_loaded_by_kind(ck, "C17.accessors")
 
 
 
